@@ -475,6 +475,13 @@ fn main() {
         "env-gen" => env_gen(&m),
         "trunc" => trunc(&m),
         "sim-gen" => sim_gen(&m),
+        "shapes" => {
+            let seed: u64 = m.get("seed").and_then(|s| s.parse().ok()).unwrap_or(1);
+            let mut out = Vec::new();
+            bourse_verif_harness::shapes_gen::run_agent_shapes(seed, &mut out);
+            bourse_verif_harness::shapes_gen::run_market_shapes(seed, &mut out);
+            for l in out { println!("{}", l); }
+        }
         "sim-run" => sim_run(&args[2..]),
         "market-gen" => market_gen(&m),
         other => {
